@@ -187,6 +187,11 @@ QUIET_OBSERVERS = frozenset(["dump_vnadata", "hash_vnadata", "dump_property",
                              "hash_property", "dump_vnacal",
                              "dump_vnacal_property"])
 
+# documented combinations: a report may name the function the call is
+# documented to consist of
+ALIASES = {"vnadata_alloc_and_init": ("vnadata_init", "vnadata_alloc"),
+           "vnaproperty_set_kv": ("vnaproperty_set",)}
+
 _SYSTEM_ERRNOS_NOT_SYSTEM = frozenset(["EINVAL", "EDOM", "EBADMSG",
                                        "ENOPROTOOPT", "ENOSYS"])
 _ident = re.compile(r"^(_?vna[a-z0-9_]+): ")
@@ -295,7 +300,7 @@ def check_event(ev, known_invalid=False, usage_refusal=False):
             m = _ident.match(msg)
             if m is None:
                 out.append(("usage-message-without-function", "%r" % (msg,)))
-            elif m.group(1) != op:
+            elif m.group(1) != op and m.group(1) not in ALIASES.get(op, ()):
                 out.append(("usage-message-names-other-function",
                             "%s reported as %r" % (op, msg)))
     if spec.errnos is not None and errno not in spec.errnos and \
